@@ -116,6 +116,10 @@ def run(model, tier="quick"):
     res.floor("constructors", do_and_init(model, res), 4)
     loop_phase(model, res)
     res.floor("obligations", len(res.obligations), 20)
+    from ..rules.fresh import fresh_rule
+    if "R-FRESH" not in res.rules:
+        res.rules.append("R-FRESH")
+    fresh_rule(model, res, scope=('demeter/strategy/', 'demeter/core/'))
     res.assumptions = ["bars are minute-aligned datetimes (to_minute normalises the specification, not the bar)"]
     res.not_decided = ["periods that do not divide the bar interval (specification silent)", "PriceTrigger / CustomizedTrigger (user predicates)"]
     return res
